@@ -126,6 +126,9 @@ func Execute(c *Case, accept string, n int) (out []Obs) {
 		ws.Path("/w")
 		ws.Route(ws.GET("/x").Produces(c.Produces...).To(func(req *restful.Request, resp *restful.Response) {
 			ran = true
+			if c.Compact {
+				resp.PrettyPrint(false)
+			}
 			resp.WriteEntity(theEntity)
 		}))
 		cont.Add(ws)
@@ -158,7 +161,7 @@ func one(cont *restful.Container, c *Case, accept string, ran *bool) (o Obs) {
 	rec := httptest.NewRecorder()
 	*ran = false
 	cont.Dispatch(rec, req)
-	ct := rec.Header().Get("Content-Type")
+	ct := rec.Result().Header.Get("Content-Type") // as sent: a header set after WriteHeader never reaches the client
 	switch {
 	case rec.Code == http.StatusNotAcceptable && !*ran:
 		return Obs{Kind: "r406"}
